@@ -4,6 +4,7 @@
   against `Spec.seqOps` = the fold of the single-operation step `stepColl` (Ops.lean).
 -/
 import Proofs.C15
+import Proofs.C15Once
 
 namespace MongoModel.Props.C15
 open MongoModel MongoModel.Spec
@@ -66,5 +67,44 @@ example : (bulkWrite {} 0 {} [
       .arr [.str "InsertOne", .doc [("_id", .int 1)]],
       .arr [.str "UpdateOne", .doc [("_id", .int 2)], .doc [("$set", .doc [("a", .int 5)])], .bool true],
       .arr [.str "DeleteMany", .doc [("a", .int 1)]]] false).2.isErr = true := by decide +kernel
+
+/-! ### the builder object: executed only once, never empty -/
+
+/-- `bulk_write(requests, ordered)` is "register the requests in a fresh builder and execute it
+    once": everything above about `bulkWrite` is about the builders' first `execute`. -/
+theorem bulk_write_is_first_execute (cfg : Cfg) (now : Int) (c : Coll) (reqs : List Val)
+    (ordered : Bool) (hp : bulkPrecheck reqs = .ok ()) :
+    bulkWrite cfg now c reqs ordered =
+      (((Builder.mk reqs ordered false).execute cfg now c).1,
+       ((Builder.mk reqs ordered false).execute cfg now c).2.2) :=
+  Proofs.C15Once.bulkWrite_eq_execute cfg now c reqs ordered hp
+
+/-- An empty builder is refused and nothing changes. -/
+theorem builder_never_empty (cfg : Cfg) (now : Int) (c : Coll) (b : Builder) (h : b.reqs = []) :
+    b.execute cfg now c = (c, b, .err .invalidOp) :=
+  Proofs.C15Once.execute_empty cfg now c b h
+
+/-- **Executed only once**: whatever the first `execute` did — succeeded, raised BulkWriteError
+    half-way, or was aborted by another exception — every later `execute` (at any later time) is
+    refused with InvalidOperation and leaves the collection exactly as the first one left it. -/
+theorem executed_only_once (cfg : Cfg) (now now' : Int) (c : Coll) (b : Builder) :
+    (b.execute cfg now c).2.1.execute cfg now' (b.execute cfg now c).1 =
+      ((b.execute cfg now c).1, (b.execute cfg now c).2.1, .err .invalidOp) :=
+  Proofs.C15Once.second_execute cfg now now' c b
+
+/-- … for any number of further calls -/
+theorem execute_n_times (cfg : Cfg) (now : Int) (n : Nat) (c : Coll) (b : Builder) :
+    executeTimes cfg now (n + 1) c b =
+      ((b.execute cfg now c).1,
+       (b.execute cfg now c).2.2 :: List.replicate n (.err .invalidOp)) :=
+  Proofs.C15Once.executeTimes_spec cfg now n c b
+
+/-- non-vacuity: a builder whose first execute raises BulkWriteError (duplicate _id) is refused
+    the second time, and the document inserted by the first run is there exactly once -/
+example : (match executeTimes {} 0 2 {} { reqs := [
+        .arr [.str "InsertOne", .doc [("_id", .int 1)]],
+        .arr [.str "InsertOne", .doc [("_id", .int 1)]]], ordered := true } with
+    | (c, [.bulkErr _, .err .invalidOp]) => c.docs.length == 1
+    | _ => false) = true := by decide +kernel
 
 end MongoModel.Props.C15
